@@ -204,6 +204,14 @@ func main() {
 						if gen.Width(ie) < 0 && maxVar == 30000 {
 							v = make([]int, 10000+r.Intn(20000))
 						}
+						if ie.DataType == entities.OctetArray && gen.Width(ie) > 0 && r.Intn(5) == 0 {
+							// a value that does not fit the fixed length: the builders take it, the field reads as zeroes
+							n := gen.Width(ie) + []int{-1, 1, 3}[r.Intn(3)]
+							v = make([]int, n)
+							for q := range v {
+								v[q] = 1 + r.Intn(255)
+							}
+						}
 						o.vals = append(o.vals, v)
 					}
 				}
